@@ -17,9 +17,14 @@ def run(tier, seed):
     light = [n for n in names if n not in heavy]
     tasks = [('lib.native', 'run_natives', (MOD, [n], tier)) for n in heavy]
     tasks += [('lib.native', 'run_natives', (MOD, light[i::LIGHT_TASKS], tier)) for i in range(LIGHT_TASKS) if light[i::LIGHT_TASKS]]
+    # engine A: the linear-time list operations proved for every prime p and all coefficient lists (contracts/gfpx_a.py); a refutation is looked up in
+    # the bounded native of the same operation for a concrete failing input
+    tasks += [('vc.tasks', 'run_contract', ('contracts.gfpx_a', a, f'contracts.gfpx:{a}.odd7', tier)) for a in ('neg', 'add', 'sub')]
     obs = run_tasks(tasks)
     return finish('C23', tier, seed, obs, 'other', t0,
-                  explanation='bounded exhaustive enumeration of executable contracts on the real functions of mpyc/gfpx.py under CPython: every public '
+                  explanation='engine A (AST -> VCs -> z3) proves Polynomial._neg/_add/_sub against coefficient-wise contracts in witness form (c == x + y or x + y - p, 0 <= c < p), '
+                              'the representation invariant of the result (reduced, no trailing zero, every stripped position zero in the sum) and the frame (operand lists unchanged), for all p > 1 and all lists; '
+                              'everything else: bounded exhaustive enumeration of executable contracts on the real functions of mpyc/gfpx.py under CPython: every public '
                               'operator/method (+ - * // % divmod << >> ** unary -, comparisons, hash, gcd, gcdext, invert, powmod, mod, degree, indexing, '
                               'evaluation, int/str/list/tuple coercions, to_bytes, reverse, monic, truncate, deriv, class methods, int-on-either-side mixed '
                               'operands, ring laws on triples) is called on ALL polynomials / pairs / triples of the stated small degrees over '
@@ -33,4 +38,4 @@ def run(tier, seed):
                                'documented preconditions kept: shift counts n >= 0, powmod modulus nonzero',
                                'a ** n with n < 0 must raise ValueError; powmod(a, n, b) must be reduced modulo b for every n (1 mod b for n = 0), negative n via the inverse',
                                'reference implementation (contracts/gfpx.py r_*) is written for the check and uses only Python ints/lists and pow(x, -1, p)'],
-                  trusted_base=['CPython 3.12 int/list semantics, pow(x, -1, p), int.to_bytes (oracle side)', 'lib.native enumeration harness'])
+                  trusted_base=['engine A encoding of Python lists (array + length, slice and + allocate new objects, del a[-1], enumerate) and mathematical integers', 'CPython 3.12 int/list semantics, pow(x, -1, p), int.to_bytes (oracle side)', 'lib.native enumeration harness'])
